@@ -765,6 +765,9 @@ func targeted(emit func(stream string, t *Y)) {
 			for _, tail := range []string{"0", "0 1 * * *", ""} {
 				spec := Str(pre + sep + tail)
 				for form := 0; form < 5; form++ {
+					if storeEvery > 1 && (form == 1 || form == 4 || (tail == "" && sep != "" && sep != "\t")) {
+						continue // quick tier: string, start and stop-list forms; the tail-less variants for "" and tab only
+					}
 					t := minimalDef()
 					switch form {
 					case 0:
